@@ -135,6 +135,17 @@ def derive(fam, base):
             v["[1]"] = e
     except Exception:
         pass
+    # component arrays (`Vec3Array_get` and its copies): of the array itself and of its masked reference
+    for nm in ("x", "y", "z", "w", "r", "g", "b", "a", "min", "max"):
+        for src in ("", "[mask]"):
+            if src not in v:
+                continue
+            try:
+                c = getattr(v[src], nm)
+            except (AttributeError, TypeError):      # no such component / its array type has no Python class
+                continue
+            if hasattr(c, "__len__") and hasattr(c, "__getitem__") and not callable(c):
+                v[src + "." + nm] = c
     if hasattr(base, "size") and not callable(getattr(base, "size")):
         v[".size"] = base.size
         if "[mask]" in v:
@@ -195,6 +206,9 @@ def attempts(fam, vname, o):
         for kk, kf in keys():
             for vk, v in fam.scalars():
                 out.append(("__setitem__", kk, vk, (lambda kf=kf, vk=vk: lambda ob: ob.__setitem__(kf(), dict(fam.scalars())[vk]))()))
+            # plain numbers: the value kind of a COMPONENT array (`.x`, `.r`, ...) of a class-typed array
+            out.append(("__setitem__", kk, "number", (lambda kf=kf: lambda ob: ob.__setitem__(kf(), 5))()))
+            out.append(("__setitem__", kk, "float", (lambda kf=kf: lambda ob: ob.__setitem__(kf(), 5.0))()))
             for L in sorted({n, (n + 1) // 2, 2, 1}):
                 for vk, _ in fam.arrays(1):
                     out.append(("__setitem__", kk, "%s[%d]" % (vk, L),
